@@ -168,6 +168,7 @@ def stepTok (cfg : Cfg) (m : Mach Nat) (tok : String) : Option (Mach Nat × Stri
   let rest := (tok.drop 1).toString
   match tok.front with
   | 'f' => (rest.toNat?).map fun nk => (m, full m.curSet nk)
+  | '_' => some (m, "N")     -- a read outside the property statement's domain: not compared
   | '@' => match rest.toNat? with
     | some k => if k < m.regs.length then some ((mstep cfg leNat m (.sel k)).1, "N") else none
     | none => none
@@ -192,6 +193,16 @@ def runToks (cfg : Cfg) : Mach Nat → List String → List String → Option (L
 def handle (line : String) : String :=
   match words line with
   | ["consts"] => s!"COMPACTION_FACTOR={Gen.COMPACTION_FACTOR} CULL_INTERVAL_LIMIT={Gen.CULL_INTERVAL_LIMIT}"
+  | "bisect" :: c1 :: c2 :: rest =>
+    -- validation of the `bisect_left` algorithm model: `bisect c1 c2 a1 b1 a2 b2 ...`
+    match c1.toNat?, c2.toNat?, rest.mapM String.toNat? with
+    | some c1, some c2, some ns =>
+      let rec pairs : List Nat → List (Nat × Nat)
+        | a :: b :: r => (a, b) :: pairs r
+        | _ => []
+      let dl := pairs ns
+      s!"py={bisectLeftPy dl (c1, c2)} abs={bisectLeft dl (c1, c2)}"
+    | _, _, _ => "bad-op"
   | cf :: n0 :: toks =>
     match cf.toNat?, n0.toNat? with
     | some cf, some n0 =>
